@@ -82,7 +82,14 @@ func (g *FuncGen) execInstr(in ssa.Instruction) {
 	case *ssa.RunDefers:
 		g.execRunDefers(x)
 	case *ssa.Go:
-		g.assumptions["goroutine started in "+g.key+": not modelled (its effects are not part of this function's contract)"] = true
+		if g.c != nil && g.c.Opts["forkjoin"] != "" {
+			// structured fork-join (wg.Add; go f(...); ...; wg.Wait): the goroutine body is executed at the
+			// spawn point; sound for race-free bodies working on disjoint data (assumes C17)
+			g.assumptions["fork-join goroutines in "+g.key+" are executed sequentially at the go statement (assumes data-race freedom, C17)"] = true
+			g.execCall(x, &x.Call, nil)
+		} else {
+			g.assumptions["goroutine started in "+g.key+": not modelled (its effects are not part of this function's contract)"] = true
+		}
 	case *ssa.Send:
 		g.execSend(x)
 	case *ssa.Select:
